@@ -505,7 +505,26 @@ def run(ctx):
         ctx.check('C06.CF1', ok, 'Jobserver::Slot', 'witness:%s' % wid, 'src/jobserver.h',
                   'witness %s %s' % (wid, 'is rejected by the compiler' if must_fail else 'compiles (control)'),
                   msg='witness %s: %s' % (wid, detail))
-    ctx.floor('C06.CF1', 6)
+    # a moved-from slot is invalid: Release(std::move(slot)) and the "release again, no-op" sites rely on it
+    for sig in ('Jobserver::Slot::Slot(Jobserver::Slot &&)', 'Jobserver::Slot::operator=(Jobserver::Slot &&)'):
+        mv = prog.functions.get(sig)
+        if mv is None or not mv.d.get('params'):
+            ctx.violation('C06.CF1', sig, 'move:source-stays-valid', 'src/jobserver.h',
+                          'no user-written body for %s: a defaulted move copies the token and leaves the source valid' % sig)
+            continue
+        o = mv.d['params'][0]['n']
+        def invalidates(x, o=o):
+            return x['k'] == 'asg' and mentions_field(x['l'], 'Jobserver::Slot::value_') and mentions_var(x['l'], o) and \
+                const_value(x.get('r')) == -1
+        takes = [x for x in mv.events('asg') if mentions_field(x['l'], 'Jobserver::Slot::value_') and not mentions_var(x['l'], o)
+                 and mentions_var(x.get('r'), o)]
+        ok = bool(takes)
+        for t in takes:
+            # no path from taking the value to the exit that skips the invalidation
+            ok = ok and mv.find_path(t, lambda x: x['k'] in ('exit', 'ret'), is_blocker=invalidates) is None
+        ctx.check('C06.CF1', ok, sig, 'move:source-stays-valid', mv.loc,
+                  'the move takes the token value and sets the source to the invalid value on every path')
+    ctx.floor('C06.CF1', 8)
 
     # ---- W1: console pool ---------------------------------------------------------------------------
     R('C06.W1', 'W', 'the console pool has depth 1 and use_console() is identity with it')
